@@ -67,6 +67,20 @@ def gen_case(rng, tier, flavour):
                             groups=True if flavour == 'subsolver' else None,
                             nl_iters=rng.choice([11, 12]) if flavour == 'solver' else rng.choice([2, 3]),
                             sub_solvers=True, sub_solver_prob=1.0 if flavour == 'subsolver' else 0.35)
+    if rng.random() < 0.5:
+        # solver scaling (ref / ref0 / res_ref) and driver scaling: every kind of case of one state must hold
+        # the same physical values
+        for comp in spec['comps']:
+            for o in comp['outs']:
+                if rng.random() < 0.6:
+                    rr = rng.choice([[100.0, 0.0], [0.5, 0.0], [10.0, 1.0], [3.0, -2.0], [7.0, 0.5]])
+                    comp.setdefault('ref', {})[o] = rr + ([rng.choice([10.0, 0.25, 3.0])] if rng.random() < 0.5 else [])
+        for lst in (spec['dvs'], spec['objs'], spec['cons']):
+            for d in lst:
+                if rng.random() < 0.5:
+                    d['scaler'] = rng.choice([2.0, 0.1, 7.0])
+                    if rng.random() < 0.5:
+                        d['adder'] = rng.choice([1.0, -3.0])
     dvs = spec['dvs']
     n = spec['comps'][0]['n']
     dtype = 'none'
@@ -207,7 +221,8 @@ def got_want(res):
 
 
 RULE = ('generated models (2-4 components in nested groups, promotion, optional coupling with block Gauss-Seidel / '
-        'Newton up to 12 iterations, sub-group solvers) x one recorder attached to problem / driver / systems / '
+        'Newton up to 12 iterations, sub-group solvers; ref/ref0/res_ref solver scaling and driver scaler/adder in half '
+        'of the models) x one recorder attached to problem / driver / systems / '
         'solvers with random record_* flags and include/exclude globs derived from the real names x run sequences '
         '(run_model with case prefixes, run_model continuing the iteration counts 11-13 times, DOE with up to 13 '
         'points, SLSQP, Problem.record); an evaluation is one recorded case read back (names, every value bitwise '
